@@ -31,6 +31,20 @@ CLAIMS = {
              "program - the inductive step that makes the iteration count irrelevant.",
         technique="symbolic execution of the real VM with depth monitors (CrossHair/z3), one-step lemma + inductive residue invariant",
         design_ref="DESIGN.md section 4 (C02)"),
+    "C03": dict(
+        text="(1) Name universal through the real VM._get_property/_has_property: on each of 22 receiver kinds (primitives, objects, "
+             "arrays, typed arrays, buffers, script/arrow/bound/native functions, regex, error, arguments) the property name is a "
+             "solver variable - any string of length <= 4 (thorough 12) outside the receiver's documented table - and must read as "
+             "undefined and not be `in`. (2) Vocabulary: every attribute name of every class and module of the engine plus the Python "
+             "dunder names (regenerated from dir() at run time), through 14 access forms in scripts (read, typeof, call, in, "
+             "hasOwnProperty, for-in, keys, new, instanceof, use as prototype, stringify, write-then-read, delete): each must behave "
+             "exactly like a fresh control name. (3) Value-domain sink: after every corpus/skeleton/call-form program the whole "
+             "object graph reachable from the globals, closure cells and the result, and every argument a host function received, "
+             "must consist of JavaScript values only. (4) An exposed host function is invoked only by explicit calls (45 "
+             "non-calling forms leave its counter at 0; 8 calling forms invoke it once with the script's symbolic arguments).",
+        technique="symbolic property names through the real property-access code (CrossHair/z3) + solver-indexed implementation-name "
+                  "vocabulary and object-graph domain walk",
+        design_ref="DESIGN.md section 4 (C03), 10.2"),
     "C04": dict(
         text="Front end: Parser and Compiler are executed on symbolic source text - one and two characters (any ASCII character as a "
              "solver variable, first character by lexical class; 26 pinned non-ASCII code points), one symbolic character spliced "
